@@ -61,6 +61,10 @@ let table : (string * (z list -> z)) list = [
   ("textread", judge_textread);
   ("textwrite", judge_textwrite);
   ("rel", judge_rel);
+  ("stack", judge_stack);
+  ("tlimit", judge_tlimit);
+  ("hist", judge_hist);
+  ("threads", judge_threads);
 ]
 
 let () =
